@@ -89,7 +89,7 @@ func c08Eval(r *core.Run, c *c08Case) {
 }
 
 func runC08(r *core.Run) {
-	r.Rule("reports printed by a model of tsan_report.cpp (Go branch): 2..6 operations, stacks of 1..12 frames with/without arguments, creation sections for any subset of the goroutines in any order, " +
+	r.Rule("reports printed by a model of tsan_report.cpp (Go branch): 2..6 operations, stacks of 1..12 (one case in 97: 1..300) frames with/without arguments, creation sections for any subset of the goroutines in any order, " +
 		"running/finished, LF/CRLF, junk before, text after the closing separator (none, short, > 16 KiB); negative variant with a section naming an unknown goroutine; " +
 		"distinct = hash of input; non-trivial = every case (>= 2 operations by construction)")
 	r.Assume("generator's reading of tsan's Go report format; 'by main goroutine', '[failed to restore the stack]' and location blocks are outside C08's statement")
@@ -97,6 +97,9 @@ func runC08(r *core.Run) {
 	core.Parallel(n, workers(), func(i int) {
 		rr := core.NewRand(r.Seed, 8, uint64(i))
 		rc := &gen.RaceCfg{MaxOps: 6, MaxFrames: 12}
+		if i%97 == 5 {
+			rc.MaxFrames = 300 // tsan restores far more frames than the runtime's traceback prints
+		}
 		switch i % 10 {
 		case 0:
 			rc.CreateMode = 1
